@@ -13,8 +13,13 @@ TraceNext ==
   /\ l <= Len(Rec)
   /\ l' = l + 1
   /\ \A i \in Wrong(Rec[l]) :
-       Viol(l, Rec[l].id, "C11", IF Rec[l].kind = "penv" THEN "G11_envChoice" ELSE "G11_proxyChoice",
+       /\ Viol(l, Rec[l].id, "C11", IF Rec[l].kind = "penv" THEN "G11_envChoice" ELSE "G11_proxyChoice",
             "observation " \o ToString(i) \o " expected " \o ProxyFor(Cfg(Rec[l]), Rec[l].obs[i].sch, Rec[l].obs[i].labels))
+       \* an observation made through a real send() (the peer it dialled): "every request is sent to the proxy selected
+       \* for its URL if there is one and to the URL's own host otherwise" (C08) fails with it
+       /\ Rec[l].obs[i].sent =>
+            Viol(l, Rec[l].id, "C08", "G08_dialsChosenProxy",
+                 "observation " \o ToString(i) \o " expected " \o ProxyFor(Cfg(Rec[l]), Rec[l].obs[i].sch, Rec[l].obs[i].labels))
 TraceSpec == TraceInit /\ [][TraceNext]_l
 TraceAccepted ==
   LET d == TLCGet("stats").diameter IN
